@@ -721,9 +721,10 @@ def compare(ctx, site, fe, h, m, r):
 # well-formedness (the quantifier of the theorems) and the direct oracle
 # =================================================================================================
 # front-ends whose deferred-well-formed histories (is_wf_deferred) are judged by the specification oracle
-# (the legacy front-end counts the lifetime from the first await - docs/C03.md 'Deferred first await' - and is only
-# compared with its model there; the cases are counted as '<fe>.deferred-await.not-judged' in the evidence)
-DEFERRED_ORACLE = ('v2',)
+# (the legacy front-end used to count the lifetime from the first await - docs/C03.md 'Deferred first await', known
+# finding C03-v1-lifetime-from-first-await, fixed by 949ef3c; a front-end not listed here is only compared with its model
+# and its cases are counted as '<fe>.deferred-await.not-judged' in the evidence)
+DEFERRED_ORACLE = ('v2', 'v1')
 
 
 def is_wf(h):
@@ -764,14 +765,16 @@ def ev_time(ev):
             else ev[2] if tag == 'setdefault' else ev[-2])
 
 
-def is_wf_deferred(h):
+def is_wf_deferred(h, fe='v2'):
     """The deadline clause of the property does not depend on WHEN the caller first awaits what express() returned:
     'with Data iff it matches and arrived before the lifetime ran out, otherwise ... a timeout AT ITS DEADLINE', the
     deadline being express time + lifetime.  A history is *deferred-well-formed* when it is well-formed except that
     the first (only) Await of an Interest may come later than its Express: at a time ta with t <= ta < t + lifetime
     (the awaitable is running strictly before the deadline), any events in between - except that the caller cannot
-    cancel an awaitable it has not started (no Cancel i before Await i).  The specification automaton ignores Await,
-    so it says what must happen.  (An Await at or after the deadline is the documented 100 ms grace path of appv2 and
+    cancel an awaitable it has not started (no Cancel i before Await i), and that in the legacy front-end the validator
+    of an Interest is called by the awaitable itself, so it cannot answer before the awaitable runs (v1: no VDone i
+    before Await i; appv2 validates in a task of its own as soon as the Data is there).  The specification automaton
+    ignores Await, so it says what must happen.  (An Await at or after the deadline is the documented 100 ms grace path of appv2 and
     stays outside the oracle.)"""
     seen = {}
     awaited = set()
@@ -793,7 +796,7 @@ def is_wf_deferred(h):
             if i not in seen or i in awaited or ev[3] != 0 or not t < seen[i]:
                 return False
             awaited.add(i)
-        elif tag == 'cancel':
+        elif tag == 'cancel' or (tag == 'vdone' and fe == 'v1'):
             if ev[1] in seen and ev[1] not in awaited:
                 return False
         elif tag == 'shutdown':
@@ -1052,7 +1055,7 @@ def deferred_family(fe, full=False):
     out = []
 
     def add(tag, h):
-        if is_wf_deferred(h) and not is_wf(h):
+        if is_wf_deferred(h, fe) and not is_wf(h):
             out.append((tag, h))
 
     def dex(i, name, t, life, d, cbp=False, dig=None, vm=None):
@@ -1145,7 +1148,7 @@ def rand_history_deferred(rng, fe):
                 d = rng.choice(cand)
                 plan[i] = -d if rng.random() < 0.3 else d
         g = defer_awaits(h, plan)
-        if is_wf_deferred(g) and not is_wf(g):
+        if is_wf_deferred(g, fe) and not is_wf(g):
             return g
     return g
 
@@ -1212,6 +1215,10 @@ def rand_history(rng, fe, n_int=None, n_ev=None, wf=True):
                 deadlines.append(t + life)
                 if rng.random() < 0.8:
                     t2 = t + rng.choice((0, 10, life, life + 50))
+                    if fe == 'v1' and t2 == t + life:
+                        # the legacy front-end measures on the loop clock (float seconds): a first await at EXACTLY the
+                        # deadline is a real-number equality that float rounding decides either way; one millisecond later
+                        t2 += 1
                     h += [('await', i, t2, 0)]
                     t = t2
             deadlines.append(t + life)
@@ -1280,7 +1287,7 @@ def check_history(ctx, fe, h, tag, prop, with_oracle=True):
     r = canon_impl(fe, run_impl(fe, h))
     same = compare(ctx, 'pipeline', fe, h, m, r)
     wf = is_wf(h)
-    dwf = not wf and is_wf_deferred(h)
+    dwf = not wf and is_wf_deferred(h, fe)
     if len(set(m['log_ids'])) != len(m['log_ids']):
         ctx.disagree('model', 'model completed an Interest twice', {'frontend': fe, 'history': h}, m['log_ids'], None)
     if (wf or (dwf and fe in DEFERRED_ORACLE)) and with_oracle:
